@@ -30,6 +30,13 @@ impl J {
             o.push((k.into(), v));
         }
     }
+    pub fn has(&self, k: &str) -> bool {
+        if let J::Obj(o) = self {
+            o.iter().any(|(kk, _)| kk == k)
+        } else {
+            false
+        }
+    }
     pub fn write(&self, out: &mut String) {
         match self {
             J::Null => out.push_str("null"),
